@@ -4,7 +4,8 @@ import QModel.Bytes
 import QModel.Recipe
 import QModel.Perform
 import QModel.WF
-open Lean Num Nd Arith Cfg Graph
+import QModel.Pipeline
+open Lean Num Nd Arith Cfg Graph Mat
 
 /-! JSON-lines driver: one request per line on stdin, one response per line on stdout. -/
 
@@ -290,6 +291,60 @@ def instToJson (i : Inst) : Json :=
               ("consumers", toJson i.consumers), ("param", match i.param with | some p => toJson p | none => Json.null)]
 
 
+
+def arrRatToJson (a : Arr Rat) : Json :=
+  Json.mkObj [("shape", toJson a.shape), ("data", Json.arr (a.data.map ratToJson).toArray)]
+
+def paramToJson : Param → Json
+  | .uniform qp d => Json.mkObj [("kind", Json.str "uniform"), ("bits", toJson qp.bits),
+      ("qdim", match qp.qdim with | some q => toJson q | none => Json.null), ("sym", toJson qp.symmetric),
+      ("scale", fArrToJson qp.scale), ("zp", iArrToJson qp.zp),
+      ("data", match d with | some x => iArrToJson x | none => Json.null)]
+  | .nonlinear b d => Json.mkObj [("kind", Json.str "nonlinear"), ("bits", toJson b),
+      ("data", match d with | some x => arrRatToJson x | none => Json.null)]
+
+def co2tToJson (o : CO2T) : Json :=
+  Json.mkObj [("op", toJson o.opId), ("xfs", toJson (o.xfs.map xfStr)),
+              ("param", match o.param with | some p => paramToJson p | none => Json.null)]
+
+def creqToJson (r : CReq) : Json :=
+  Json.mkObj [("name", Json.str r.name),
+    ("producer", match r.producer with | some o => co2tToJson o | none => Json.null),
+    ("consumers", match r.consumers with | some l => Json.arr (l.map co2tToJson).toArray | none => Json.null)]
+
+def getEnv (j : Json) : Except String Env := do
+  let m ← getModel (← j.getObjVal? "model")
+  let cs ← j.getObjValAs? (Array Json) "consts"
+  let consts ← cs.toList.mapM fun c => do
+    let b ← c.getObjValAs? Nat "buffer"
+    let d ← getRatList c "data"
+    pure (b, d)
+  let ay ← j.getObjValAs? (Array (Array Nat)) "adjY"
+  let adjY := ay.toList.filterMap fun a => match a.toList with | [s, o] => some (s, o) | _ => none
+  pure { model := m, consts := consts, adjY := adjY }
+
+def getQsvs (j : Json) : Except String (Option Qsvs) := do
+  let q ← j.getObjVal? "qsvs"
+  if q.isNull then return none
+  let rows ← j.getObjValAs? (Array Json) "qsvs"
+  let l ← rows.toList.mapM fun r => do
+    let name ← r.getObjValAs? String "name"
+    let mnj ← r.getObjVal? "min"
+    if mnj.isNull then pure (name, (none : Qsv)) else do
+      let mn ← getFArr mnj
+      let mx ← getFArr (← r.getObjVal? "max")
+      pure (name, some (mn, mx))
+  pure (some l)
+
+def getState (j : Json) : Except String Recipe.State := do
+  let rj ← j.getObjVal? "recipe"
+  match toJOrdered rj with
+  | .arr l => match Recipe.load false l with
+    | (.ok st, _) => pure st
+    | (.error e, _) => throw s!"recipe does not load in the model: {e}"
+  | _ => throw "recipe must be a list"
+
+
 def okJson (j : Json) : Json := Json.mkObj [("ok", j)]
 def errJson (e : PyErr) : Json := Json.mkObj [("err", Json.str (toString e))]
 def pyToJson {α} (f : α → Json) : PyM α → Json
@@ -390,6 +445,21 @@ def handle (j : Json) : Except String Json := do
       let pt ← getPTable j
       pure (match Perform.modify pt m reqs with
         | .ok m' => Json.mkObj [("ok", modelToJson m'), ("wf", Json.bool (WF.modelOK m')), ("wf_in", Json.bool (WF.modelOK m))]
+        | .error e => errJson e)
+  | "materialize" =>
+      let env ← getEnv j
+      let st ← getState j
+      let rx ← rxTable j
+      let qs ← getQsvs j
+      pure (pyToJson (fun (l : List CReq) => Json.arr (l.map creqToJson).toArray) (Mat.generate rx env st qs))
+  | "pipeline" =>
+      let env ← getEnv j
+      let st ← getState j
+      let rx ← rxTable j
+      let qs ← getQsvs j
+      pure (match Pipeline.quantizePure rx env st qs with
+        | .ok (m', tbl) => Json.mkObj [("ok", modelToJson m'), ("params", Json.arr (tbl.map paramToJson).toArray),
+                                        ("wf", Json.bool (WF.modelOK m'))]
         | .error e => errJson e)
   | _ => throw s!"unknown op {op}"
 
